@@ -16,6 +16,10 @@ def renEv : KEvent → KEvent
   | .exitConn i m => .exitConn i (renMsg a m)
   | .wakeup i => .wakeup i
   | .restart i => .restart i
+  | .leave i li m => .leave i li (renMsg a m)
+  | .unbusy li => .unbusy li
+
+def renChan (c : ChanRt) : ChanRt := { c with queue := c.queue.map (fun p => (renMsg a p.1, p.2)) }
 
 def renSl (s : Sl) : Sl := { s with id := a.sleepId s.id }
 
@@ -23,6 +27,7 @@ def renWait : Wait → Wait
   | .run => .run
   | .sleeping s => .sleeping (renSl a s)
   | .selecting ss => .selecting (ss.map (renSl a))
+  | .waiting n g => .waiting n g
 
 def renTask (t : TaskRt) : TaskRt := { t with wait := renWait a t.wait }
 
@@ -35,7 +40,7 @@ def renMod (m : ModRt) : ModRt :=
 
 def renSim (s : Sim) : Sim :=
   { s with mods := s.mods.map (renMod a), evs := s.evs.map (renEv a),
-           buf := s.buf.map (fun p => (renEv a p.1, p.2)) }
+           buf := s.buf.map (fun p => (renEv a p.1, p.2)), chans := s.chans.map (renChan a) }
 
 /-! ### projections -/
 
@@ -48,6 +53,9 @@ def renSim (s : Sim) : Sim :=
 @[simp] theorem renSim_nextSleep (s : Sim) : (renSim a s).nextSleep = s.nextSleep := rfl
 @[simp] theorem renSim_mods (s : Sim) : (renSim a s).mods = s.mods.map (renMod a) := rfl
 @[simp] theorem renSim_evs (s : Sim) : (renSim a s).evs = s.evs.map (renEv a) := rfl
+@[simp] theorem renSim_chans (s : Sim) : (renSim a s).chans = s.chans.map (renChan a) := rfl
+@[simp] theorem renChan_busy (c : ChanRt) : (renChan a c).busy = c.busy := rfl
+@[simp] theorem renMod_sems (m : ModRt) : (renMod a m).sems = m.sems := rfl
 @[simp] theorem renSim_dropped (s : Sim) : (renSim a s).dropped = s.dropped := rfl
 @[simp] theorem renSim_seeds (s : Sim) : (renSim a s).seeds = s.seeds := rfl
 @[simp] theorem renSim_buf (s : Sim) : (renSim a s).buf = s.buf.map (fun p => (renEv a p.1, p.2)) := rfl
@@ -96,6 +104,10 @@ theorem updAt_length {α : Type} (f : α → α) : ∀ (i : Nat) (l : List α), 
 theorem updMod_ren (s : Sim) (mi : Nat) (g g' : ModRt → ModRt) (h : ∀ m, g (renMod a m) = renMod a (g' m)) :
     (renSim a s).updMod mi g = renSim a (s.updMod mi g') := by
   simp [Sim.updMod, renSim, updAt_map (renMod a) g g' h]
+
+theorem updChan_ren (s : Sim) (li : Nat) (g g' : ChanRt → ChanRt) (h : ∀ c, g (renChan a c) = renChan a (g' c)) :
+    (renSim a s).updChan li g = renSim a (s.updChan li g') := by
+  simp [Sim.updChan, renSim, updAt_map (renChan a) g g' h]
 
 theorem updTask_ren (m : ModRt) (ti : Nat) (g g' : TaskRt → TaskRt) (h : ∀ t, g (renTask a t) = renTask a (g' t)) :
     (renMod a m).updTask ti g = renMod a (m.updTask ti g') := by
